@@ -766,5 +766,5 @@ func TestEnum(t *testing.T) {
 }
 
 func TestReplay(t *testing.T) {
-	core.Replay(t, valueCheck, eachCheck, modesCheck, lenCheck, handCheck, methodCheck, genCheck, oversizeProbe, vecCheck, emptyCheck, nilPtrCheck, foreignCheck, concurrentCheck, mappingCheck, wireCheck, wirePairCheck)
+	core.Replay(t, valueCheck, eachCheck, modesCheck, lenCheck, handCheck, methodCheck, genCheck, oversizeProbe, vecCheck, emptyCheck, nilPtrCheck, foreignCheck, concurrentCheck, mappingCheck, wireCheck, wirePairCheck, answerCheck, answerLenCheck)
 }
